@@ -1,16 +1,4 @@
-HOOK_COMMITS = ['8334f9b', '50da1cb']
-
+from props import PROPS
+HOOK_COMMITS = ['8334f9b', '50da1cb', '127919d']
 NOT_APPLICABLE = {}
-
-META = {
-    'C22': {
-        'text': 'Theorem c22_read_refines: for EVERY history of button events and JOYP writes the value read from the code '
-                'model equals the documentation-shaped specification (bits 6-7 one, bits 4-5 as written, low nibble per held '
-                'keys of the selected groups); c22_no_opposites: opposite directions are never held together. The model is '
-                'tied to controller.go by an exhaustive one-step correspondence over the whole reachable state space.',
-        'note': 'Trusted: Lean kernel (axioms propext, Quot.sound), the hand-written model of controller.go, the correspondence '
-                'harness. Spec/Joyp.lean is our reading of Pan Docs.',
-        'technique': 'Lean 4 refinement proof (abstraction function + induction over histories) + exhaustive model/code correspondence',
-        'design_ref': 'DESIGN.md section 4 C22',
-    },
-}
+META = {k: v['manifest'] for k, v in PROPS.items()}
